@@ -464,6 +464,31 @@ func wholeProgramEffects(r *Run) {
 		isT[t] = true
 	}
 	R := w.reachers(targets)
+	// controls of the search itself (a silent control is an analyser failure, not a verdict):
+	// positive — Haqq's ante helper claims rewards inside a closure handed to IterateDelegations (found only
+	// because the closure is bound at the call site); negative — the distribution querier hands a counting
+	// closure to the very same IterateDelegations (kept apart only by the per-site binding).
+	for _, c := range []struct {
+		fn    string
+		reach bool
+	}{
+		{haqqMod + "/app/ante/utils.ClaimSufficientStakingRewards", true},
+		{"(github.com/cosmos/cosmos-sdk/x/distribution/keeper.Querier).DelegationTotalRewards", false},
+		{"(github.com/cosmos/cosmos-sdk/x/authz/keeper.Keeper).SaveGrant", false},
+		{"(github.com/cosmos/cosmos-sdk/x/staking/keeper.msgServer).Delegate", true},
+	} {
+		f := w.byName[c.fn]
+		if f == nil {
+			r.Fail("whole-program control %s not found", c.fn)
+			continue
+		}
+		got := w.reachCtx(f, wBind{}, R, isT, map[string]bool{}) != nil
+		if got != c.reach {
+			r.Fail("whole-program control failed: %s reaches the bank balance writer = %v, expected %v", c.fn, got, c.reach)
+		} else {
+			r.Count("W1 search controls matched", 1)
+		}
+	}
 	r.Count("W1 whole-program packages", w.NPkgs)
 	r.Count("W1 whole-program functions", len(w.Funcs))
 	r.Count("W1 functions that can reach the bank balance writer (VTA)", len(R))
@@ -478,6 +503,9 @@ func wholeProgramEffects(r *Run) {
 			}
 			idx := map[string]int{}
 			for _, s := range externalSites(h.Fn, 3, map[*ssa.Function]bool{}) {
+				if writesDiscardedCacheCtx(s.Call) {
+					continue // branched context whose write function is never called
+				}
 				wsites, ok := w.sitesAt(P, s.Call)
 				name := s.Info.Recv + "." + s.Info.Name
 				if s.Info.Recv == "" {
@@ -522,4 +550,105 @@ func wholeProgramEffects(r *Run) {
 	r.Count("W1 call sites without a whole-program counterpart (no position)", nUnmapped)
 	r.Floor("W1", "bank-moving call sites confirmed through the whole program", nMoving, 9)
 	r.Floor("W1", "handler call sites classified through the whole program", nSites, 100)
+}
+
+// storeWriters: Set/Delete methods of the SDK store implementations (cachekv, gaskv, prefix, iavl, …):
+// methods of types in cosmos-sdk/store/** whose method set has Get, Has, Set, Delete and Iterator (the
+// KVStore shape). Internal caches of those stores (cachekv's sorted BTree of dirty items, which an
+// iterator rebuilds) are not store writes.
+func (w *WProg) storeWriters() []*ssa.Function {
+	var out []*ssa.Function
+	for f := range w.Funcs {
+		if f.Blocks == nil || (f.Name() != "Set" && f.Name() != "Delete") || f.Signature.Recv() == nil || f.Synthetic != "" {
+			continue
+		}
+		pp := fnPkgPath(f)
+		if !(strings.HasPrefix(pp, "github.com/cosmos/cosmos-sdk/store/") || pp == "github.com/cosmos/cosmos-sdk/store") {
+			continue
+		}
+		ms := w.SSA.MethodSets.MethodSet(f.Signature.Recv().Type())
+		has := map[string]bool{}
+		for i := 0; i < ms.Len(); i++ {
+			has[ms.At(i).Obj().Name()] = true
+		}
+		if has["Get"] && has["Has"] && has["Set"] && has["Delete"] && has["Iterator"] && has["ReverseIterator"] {
+			out = append(out, f)
+		}
+	}
+	sort.Slice(out, func(i, j int) bool { return out[i].String() < out[j].String() })
+	return out
+}
+
+// wholeProgramQueries (C16 thorough): rule W2 — a handler that is not classified as a transaction cannot
+// reach any store write, whatever it calls (the quick rule R1 trusts a read-only-by-name list).
+func wholeProgramQueries(r *Run) {
+	P := r.P
+	r.Rule("W2", "whole-program (LoadAllSyntax + VTA with per-site callback binding): no call made by a precompile handler whose method is not in IsTransaction can reach a Set/Delete of a cosmos-sdk store implementation — a query handler is read-only through every callee, not just by the names the quick rule R1 lists; every transaction handler does reach one (control)")
+	w, err := loadWhole(P.RepoDir, P.Tags)
+	if err != nil {
+		r.Fail("whole-program load failed: %v", err)
+		return
+	}
+	targets := w.storeWriters()
+	if len(targets) < 4 {
+		r.Fail("whole-program premise: only %d store Set/Delete implementations found", len(targets))
+		return
+	}
+	isT := map[*ssa.Function]bool{}
+	for _, t := range targets {
+		isT[t] = true
+	}
+	R := w.reachers(targets)
+	r.Count("W2 store Set/Delete implementations", len(targets))
+	r.Count("W2 functions that can reach a store write (VTA)", len(R))
+	nQ, nTx, nTxReach, nDiscarded := 0, 0, 0, 0
+	for _, m := range wiredPrecompiles(r) {
+		if !m.Stateful {
+			continue
+		}
+		for _, h := range m.Handlers {
+			if h.Fn == nil {
+				continue
+			}
+			var hit []string
+			var hitAt string
+			for _, s := range externalSites(h.Fn, 3, map[*ssa.Function]bool{}) {
+				if writesDiscardedCacheCtx(s.Call) {
+					nDiscarded++
+					continue // runs on a branched context whose write function is never called: nothing persists
+				}
+				wsites, ok := w.sitesAt(P, s.Call)
+				if !ok {
+					continue
+				}
+				for _, ws := range wsites {
+					if ch := w.reachFromSite(ws, R, isT); ch != nil {
+						hit, hitAt = ch, P.Pos(instrPos(s.Call))
+						break
+					}
+				}
+				if hit != nil {
+					break
+				}
+			}
+			inst := fnID(h.Fn) + "#" + h.Method
+			if h.IsTx {
+				nTx++
+				if hit != nil {
+					nTxReach++
+				}
+				continue
+			}
+			nQ++
+			r.Check(hit == nil, "W2", inst, P.Pos(fnPos(h.Fn)), "no store write reachable from this query handler",
+				"the handler of a method that IsTransaction does not list can reach a store write (call at "+hitAt+"): a 'view' call changes Cosmos state, outside the flush/journal discipline applied to transactions and callable under STATICCALL", hit...)
+		}
+	}
+	r.Count("W2 query handlers examined", nQ)
+	r.Count("W2 calls on a discarded cache context (skipped)", nDiscarded)
+	r.Count("W2 transaction handlers that reach a store write (control)", nTxReach)
+	r.Floor("W2", "query handlers examined through the whole program", nQ, 10)
+	if nTx > 0 && nTxReach < nTx {
+		r.Fail("whole-program control failed: only %d of %d transaction handlers reach a store write — the search is too narrow to trust its negative answers", nTxReach, nTx)
+	}
 }
